@@ -17,7 +17,8 @@ func (r *recT) Helper()                           {}
 var errBoom = errors.New("boom")
 
 // scripted marshaler (value receiver): mode 0 right data, 1 other data, 2 error, 3 error together with data, 4 panic,
-// 5 a nil slice and no error (right data exactly when the empty text is expected)
+// 5 a nil slice and no error (right data exactly when the empty text is expected), 6 panic whose value is the error
+// "boom" itself (the helpers turn every panic into an error "panic: <value>\n<stack>", so it must not pass for "boom")
 type scriptM struct {
 	mode int
 	data string
@@ -33,6 +34,8 @@ func (s scriptM) MarshalText() ([]byte, error) {
 		return []byte(s.data), errBoom
 	case 5:
 		return nil, nil
+	case 6:
+		panic(errBoom)
 	}
 	panic("scripted panic")
 }
@@ -57,6 +60,8 @@ func (s *scriptU) UnmarshalText(b []byte) error {
 	case 3:
 		s.got = string(b)
 		return errBoom
+	case 6:
+		panic(errBoom)
 	}
 	panic("scripted panic")
 }
@@ -94,6 +99,8 @@ func pickPred(kind int) AssertErrorFunc {
 		return ErrorMatch("ab.")
 	case 8:
 		return ErrorMatch("ab(.") // not a valid pattern: reported through the compile error
+	case 9:
+		return ErrorHasPrefix("panic: ") // what every recovered panic is documented to start with
 	}
 	return nil
 }
@@ -106,14 +113,16 @@ func knownErrorMatch(pred, mode, before, after int, applicable bool) {
 
 // predHolds: does the predicate accept the error produced by a scripted call in the given mode?
 func predHolds(kind int, mode int) bool {
-	hasErr := mode >= 2 && mode <= 4
+	hasErr := (mode >= 2 && mode <= 4) || mode == 6
 	switch kind {
 	case 1:
 		return hasErr
 	case 2, 4, 6:
-		return mode == 2 || mode == 3 // the panic error has another text
+		return mode == 2 || mode == 3 // the panic error has another text: "panic: <value>\n<stack>"
 	case 3, 5, 7, 8:
 		return false
+	case 9:
+		return mode == 4 || mode == 6
 	}
 	return false
 }
@@ -144,10 +153,10 @@ func hookU(kind int) func(index int, c *CaseText[scriptU]) error {
 
 // one case through MarshalText: failure reported iff the independent per-case oracle says so
 //
-//verif:harness C20 quick mode=0..5 pred=0..8 cons=0..2 hooks=0..15
+//verif:harness C20 quick mode=0..6 pred=0..9 cons=0..2 hooks=0..15
 func H_C20_marshalText(mode int, pred int, cons int, hooks int) {
-	if pred >= 2 && mode == 4 {
-		return // the text of a panic error contains a stack trace: only AnyError is meaningful there
+	if (pred == 6 || pred == 7) && (mode == 4 || mode == 6) {
+		return // a valid ErrorMatch pattern that does not match is the recorded finding; it is exercised on the error modes
 	}
 	before, after := hooks%4, hooks/4
 	expected := vStr("expected", 2)
@@ -196,9 +205,10 @@ func H_C20_marshalText(mode int, pred int, cons int, hooks int) {
 	vReach("passing-case", !want)
 }
 
-//verif:harness C20 quick mode=0..4 pred=0..8 cons=0..2 hooks=0..15
+//verif:harness C20 quick mode=0..4 pred=0..9 cons=0..2 hooks=0..15
+//verif:harness C20 quick mode=6..6 pred=0..9 cons=0..2 hooks=0..15
 func H_C20_unmarshalText(mode int, pred int, cons int, hooks int) {
-	if pred >= 2 && mode == 4 {
+	if (pred == 6 || pred == 7) && (mode == 4 || mode == 6) {
 		return
 	}
 	before, after := hooks%4, hooks/4
